@@ -48,9 +48,10 @@ type Query struct {
 }
 
 type Case struct {
-	Set   ElemSet `json:"set"`
-	Depth int     `json:"depth"` // -1 = automatic
-	Query Query   `json:"query"`
+	Set    ElemSet     `json:"set"`
+	Depth  int         `json:"depth"` // -1 = automatic
+	Query  Query       `json:"query"`
+	Ladder *LadderCase `json:"ladder,omitempty"` // size-ladder case (everything regenerated from it)
 }
 
 // ---- fixed query lattices ----
@@ -642,6 +643,10 @@ func run(c *core.Ctx) {
 	c.Bound("query_points", len(qPoints))
 	c.Bound("radii", radii)
 	c.Bound("rays", fmt.Sprintf("%d origins {-1,0.5,2}^3 x %d lattice directions x ranges [0,inf) and [0.5,2]", len(rayOrig), len(rayDirs)))
+	k.runLadder()
+	if c.Expired() || c.Args["only"] == "ladder" {
+		return
+	}
 	for _, fam := range families(c) {
 		c.Bound("family."+fam.name, fam.desc)
 		fam.each(func(s ElemSet) bool {
@@ -663,6 +668,10 @@ func replay(c *core.Ctx) {
 		return
 	}
 	k := &checker{c: c}
+	if cs.Ladder != nil {
+		k.runLadderSet(newLadderSet(cs.Ladder.Kind, cs.Ladder.N, cs.Ladder.Scale), cs.Ladder)
+		return
+	}
 	so := newSetOracle(cs.Set)
 	q := cs.Query
 	switch q.Type {
